@@ -188,14 +188,14 @@ def check_property(pid, tier='quick', seed=0, replay_only=None):
                 lines.append('UNDECIDED property=%s proof-internal obligation %s no longer holds (the proof needs repair) and no failing input was found on the real code; see %s' % (pid, oid, path))
         violations = [(o, m) for (o, m) in violations if o in confirmed]
         exit_code = 1 if violations else 2
+    if violations and undecided:
+        for oid, msgs in violations:
+            lines.append('UNDECIDED property=%s obligation %s fails, but the unit is undecided so it is not reported as a violation' % (pid, oid))
     if lost_viol:
         violations = list(violations) + [(o, ['anchor lost; concrete failing input found by replay']) for o in lost_viol]
         exit_code = 1
     elif internal_only and exit_code == 0:
         exit_code = 2
-    elif violations:
-        for oid, msgs in violations:
-            lines.append('UNDECIDED property=%s obligation %s fails, but the unit is undecided so it is not reported as a violation' % (pid, oid))
 
     n_known = len([o for o in obligations if o in kf_ids and o in failed])
     n_obl = len(obligations) - n_known + sum(1 for k in kani_res if k.get('counts_as_proof'))
